@@ -329,7 +329,16 @@ def run_emitter(spec, res):
     from vivarium.core.emitter import RAMEmitter
     em = RAMEmitter({})
     em.emit({'table': 'configuration', 'data': {}})
-    for t, row in build_data(spec).items():
+    rows = list(build_data(spec).items())
+    for i, (t, row) in enumerate(rows):
+        if i == len(rows) - 1 and len(rows) >= 2 and not spec.get('absent'):
+            # the views are read once before the history is complete (an
+            # analysis between two runs): the later reads must be up to date
+            em.get_timeseries()
+            em.get_path_timeseries()
+            em.get_data_deserialized()
+            em.get_data_unitless()
+            res.label('views_read_before_last_row')
         em.emit({'table': 'history', 'data': dict(row, time=t)})
     check_emitter(res, spec, build_data(spec), em)
 
